@@ -728,9 +728,11 @@ func (g *gen) fields(n, depth int, objectOnly bool) []*Field {
 				f.Required = true
 				g.cls("required")
 			case 1:
-				if f.Type.Kind != "array" && f.Type.Kind != "map" {
-					f.Optional = true
-					g.cls("optional")
+				f.Optional = true
+				g.cls("optional")
+				if f.Type.Kind == "array" || f.Type.Kind == "map" {
+					// accepted and without effect: repeated fields have no presence
+					g.cls("optional-on-container")
 				}
 			}
 			f.Style = rapid.IntRange(0, 2).Draw(t, "presencestyle")
